@@ -181,6 +181,9 @@ def routing(h: History, dont_care_call=None):
             return False
         if c['ret'] is not None and not expected_async(c) and (hd['end'] is None or hd['end'] > c['ret']['seq']):
             return False
+        # an event raised by the component is a plain nested function call into the user's handler: same thread
+        if c['side'] == 'i' and hd['task'] != c['task']:
+            return False
         return True
 
     def compatible(c, hd):
